@@ -177,6 +177,10 @@ def gen_sprout(rng, bounds, n_levels: int, kind: str | None = None, level_limit=
     if rng.random() < 0.5:
         tfs.append({"k": "skipsame"})
         rng.shuffle(tfs)
+    if rng.random() < 0.25:
+        tfs.insert(0, {"k": "userpure"})  # a user-written functional-style filter ahead of the built-in ones
+    if rng.random() < 0.15:
+        dfs.insert(rng.randrange(len(dfs) + 1), {"k": "userpure"})
     return {"k": "custom", "gen": gen, "dfilters": dfs, "tfilters": tfs, "ll": ll}
 
 
@@ -252,6 +256,7 @@ def gen_tree_case(rng, prof: dict | None = None) -> dict:
         gsc["w"] = [rng.choice([0, 1, 2, 0.5]) for _ in range(n_levels)]
         if not any(gsc["w"]):
             gsc["w"][0] = 1
+        gsc["w_form"] = rng.choice(["list", "tuple", "array"])
     if gsc["k"] == "precision":
         # needs a precision wrapper on the root level's stack (index recorded for the builder)
         st = list(levels[0]["stack"])
@@ -289,7 +294,9 @@ def gen_tree_case(rng, prof: dict | None = None) -> dict:
     if hib or rng.random() < 0.3:
         options["hibernation"] = bool(hib)
     r = rng.random()
-    if r < 0.08:
+    if p.get("log_level"):
+        options["log_level"] = p["log_level"]
+    elif r < 0.08:
         options["log_level"] = rng.choice(["error", "critical", "warning"])
     elif r < 0.11:
         options["log_level"] = rng.choice(["info", "debug"])  # verbose levels: the log calls' arguments are used for real
